@@ -9,10 +9,13 @@
    (3) globals  - as long as the number of globals stays <= n (n < 2^32, Handle::from_u32 injective
                   on 0..n-1): ids are exactly 0..len-1 without repetition, ids and names are mutually
                   inverse, next_var = len, every Read/SetGlobalVar operand is < len.
+   The number of globals is bounded through the code size (each new id is followed by a 5-byte
+   instruction: 5 * len <= bytes), so a bytecode below 2^31 bytes has fewer than 2^32 globals, and
+   Handle::from_u32 is injective below 2^32 - 1 (HandleInj): n can be taken as 2^32 - 1.
    Consequence (compile_wellformed): wellformed_gen false (finish s). *)
 From Coq Require Import List NArith ZArith Bool Lia Permutation.
 From Cao Require Import ListUtil CheckUtil Bits CardAst Bytecode Compiler CompilerGen StdlibGen Wellformed
-     WellformedSide CompilerProofs CompilerWf CompilerOk CompilerData.
+     WellformedSide CompilerProofs CompilerWf CompilerOk CompilerData HandleInj.
 Import ListNotations.
 Local Open Scope N_scope.
 
@@ -114,7 +117,8 @@ Section Full.
     i3_str : Forall (str_ok (rev (cs_data s))) (cs_code s);
     i3_lidx : Forall lidx_ok (cs_code s);
     i3_ups : Forall ups255 (cs_upvalues s);
-    i3_vars : nvars s <= n -> vars_good s
+    i3_vars : nvars s <= n -> vars_good s;
+    i3_cnt : 5 * nvars s <= bytes (cs_code s)
   }.
 
   Definition spX {A} (m : M A) (Q : A -> Prop) : Prop :=
@@ -166,7 +170,7 @@ Section Full.
 
   Lemma Inv3_same s s' : same3 s s' -> Inv3 s -> Inv3 s'.
   Proof.
-    intros (a & b & c & d & e & f & g) [H1 H2 H3 H4 H5].
+    intros (a & b & c & d & e & f & g) [H1 H2 H3 H4 H5 H6].
     constructor; unfold nvars in *; rewrite ?a, ?b, ?c, ?d, ?e, ?f, ?g; auto.
     intros Hn. apply (vars_good_same s s'); auto.
   Qed.
@@ -269,12 +273,13 @@ Section Full.
 
   Lemma Inv3_pushed s i : Inv3 s -> plain i -> Inv3 (pushed s i).
   Proof.
-    intros [H1 H2 H3 H4 H5] (Hs & Hl & Hg). constructor.
+    intros [H1 H2 H3 H4 H5 H6] (Hs & Hl & Hg). constructor.
     - exact H1.
     - unfold pushed. cbn. constructor; [apply str_ok_none, Hs | exact H2].
     - unfold pushed. cbn. constructor; auto.
     - exact H4.
     - intros Hn. apply vars_good_pushed; auto.
+    - unfold pushed, nvars in *. cbn [cs_code cs_ids set_code set_trace bytes]. lia.
   Qed.
 
   Lemma pr3_push_instr i : plain i -> pr3 (push_instr i).
@@ -311,11 +316,26 @@ Section Full.
       (split; [reflexivity | split; [exact I | intros; exact I]]).
   Qed.
 
+  Lemma patch_code_spans : forall code cur q z code',
+    patch_code code cur q z = Some code' -> map instr_span code' = map instr_span code.
+  Proof.
+    induction code as [|i r IH]; intros cur q z code' E; cbn [patch_code] in E; [discriminate|].
+    destruct (cur - N.of_nat (instr_span i) =? q).
+    - destruct (set_jump_target i z) as [i'|] eqn:Ej; [|discriminate]. injection E as <-.
+      cbn [map]. rewrite (set_jump_target_span _ _ _ Ej). reflexivity.
+    - destruct (cur - N.of_nat (instr_span i) <? q); [discriminate|].
+      destruct (patch_code r _ q z) as [r'|] eqn:Er; [|discriminate]. injection E as <-.
+      cbn [map]. f_equal. eapply IH; eauto.
+  Qed.
+
   Lemma pr3_patch q : pr3 (patch_jump_here q).
   Proof.
-    intros s _ [H1 H2 H3 H4 H5]. unfold patch_jump_here.
+    intros s _ [H1 H2 H3 H4 H5 H6]. unfold patch_jump_here.
     destruct (patch_code (cs_code s) (cs_pc s) q (u32_to_i32 (cs_pc s))) as [code'|] eqn:E; [|exact I].
-    constructor; cbn; auto.
+    constructor; cbn [cs_dlen cs_data cs_code cs_upvalues cs_ids set_code]; auto;
+      [| | |unfold nvars in *; cbn [cs_ids cs_code set_code];
+            pose proof (bytes_skipn_spans 0 code' (cs_code s) (patch_code_spans _ _ _ _ _ E)) as Hbs;
+            cbn [skipn] in Hbs; rewrite Hbs; exact H6].
     - eapply patch_code_Forall; [|exact H2|exact E].
       intros i z i' Hj. apply str_ok_none. apply (set_jump_target_plain _ _ _ Hj).
     - eapply patch_code_Forall; [|exact H3|exact E].
@@ -332,12 +352,13 @@ Section Full.
 
   Lemma pr3_push_string mk st : str_mk mk -> utf8_valid st = true -> pr3 (push_string mk st).
   Proof.
-    intros Hmk Hu s _ [H1 H2 H3 H4 H5]. unfold push_string, bind, get. rewrite push_instr_eq.
+    intros Hmk Hu s _ [H1 H2 H3 H4 H5 H6]. unfold push_string, bind, get. rewrite push_instr_eq.
     destruct (N.leb_spec two32 (N.of_nat (length st))) as [Hge|Hlt]; [exact I|].
     assert (Hrev : rev (rev_append st (rev_append (le_bytes 4 (N.of_nat (length st))) (cs_data s)))
                    = rev (cs_data s) ++ entry st).
     { rewrite !rev_append_rev, !rev_app_distr, !rev_involutive. unfold entry. rewrite app_assoc. reflexivity. }
-    constructor; cbn [cs_dlen cs_data cs_code cs_upvalues set_data pushed set_code set_trace].
+    constructor; cbn [cs_dlen cs_data cs_code cs_upvalues set_data pushed set_code set_trace];
+      [| | | | |unfold nvars in *; cbn [cs_ids cs_code set_data pushed set_code set_trace bytes]; lia].
     - rewrite !rev_append_rev, !app_length, !rev_length, le_bytes_length, H1. lia.
     - rewrite Hrev. constructor.
       + intros off E.
@@ -380,13 +401,13 @@ Section Full.
 
   Lemma pr3_compile_begin : pr3 compile_begin.
   Proof.
-    intros s _ [H1 H2 H3 H4 H5]. cbn. constructor; cbn; auto.
+    intros s _ [H1 H2 H3 H4 H5 H6]. cbn. constructor; cbn; auto.
     - constructor; auto. constructor.
     - intros Hn. apply (vars_good_same s); auto.
   Qed.
   Lemma pr3_compile_end : pr3 compile_end.
   Proof.
-    intros s _ [H1 H2 H3 H4 H5]. cbn. constructor; cbn; auto.
+    intros s _ [H1 H2 H3 H4 H5 H6]. cbn. constructor; cbn; auto.
     - apply Forall_tl. exact H4.
     - intros Hn. apply (vars_good_same s); auto.
   Qed.
@@ -438,7 +459,7 @@ Section Full.
     subst s0.
     destruct (rfind_index _ (hd [] (cs_locals s)) 0 None); [exact H3|].
     destruct (resolve_upvalue x (cs_locals s) (cs_upvalues s)) as [[[v ls] us]|] eqn:Er; [|exact I].
-    destruct H3 as [H1 H3a H3b H4 H5]. constructor; cbn; auto.
+    destruct H3 as [H1 H3a H3b H4 H5 H6]. constructor; cbn; auto.
     - eapply resolve_upvalue_255; [apply (i2_locals _ H2) | apply (i2_ups _ H2) | exact H4 | exact Er].
     - intros Hn. apply (vars_good_same s); auto.
   Qed.
@@ -465,7 +486,7 @@ Section Full.
   Lemma global_id_good name s id s1 :
     global_id name s = ROk id s1 ->
     cs_code s1 = cs_code s /\ cs_data s1 = cs_data s /\ cs_dlen s1 = cs_dlen s /\ cs_upvalues s1 = cs_upvalues s /\
-    nvars s <= nvars s1 /\
+    nvars s <= nvars s1 <= nvars s + 1 /\
     (nvars s1 <= n -> vars_good s -> vars_good s1 /\ id < nvars s1).
   Proof.
     unfold global_id, bind, handle_from_bytes_m. set (h := handle_of_bytes name).
@@ -538,7 +559,7 @@ Section Full.
 
   Lemma pr3_global mk name : glob_mk mk -> pr3 (bind (global_id name) (fun id => push_instr (mk id))).
   Proof.
-    intros Hmk s _ [H1 H2 H3 H4 H5]. unfold bind.
+    intros Hmk s _ [H1 H2 H3 H4 H5 H6]. unfold bind.
     destruct (global_id name s) as [id s1| | |] eqn:E; auto.
     destruct (global_id_good _ _ _ _ E) as (Ec & Ed & El & Eu & Hmono & Hgood).
     rewrite push_instr_eq.
@@ -553,6 +574,8 @@ Section Full.
       destruct (Hgood Hn (H5 ltac:(lia))) as [G Hid].
       destruct G as [G1 G2 G3 G4 G5 G6 G7 G8]. constructor; auto.
       unfold nvars in *. cbn. constructor; auto. destruct Hmk; subst mk; exact Hid.
+    - unfold nvars in *. cbn [cs_ids set_code set_trace bytes]. rewrite Ec.
+      assert (Hsp : spanN (mk id) = 5) by (destruct Hmk; subst mk; reflexivity). lia.
   Qed.
   Lemma glob_mk_ok mk id : glob_mk mk -> id < two32 -> instr_ok (mk id).
   Proof. intros [->| ->] H; ok_args. Qed.
@@ -914,6 +937,7 @@ Section Full.
       + intros ? ? [].
       + intros ? ? [].
       + apply Forall_nil.
+    - lia.
   Qed.
 
   Lemma compile_ir_Inv3 fs d s :
@@ -944,6 +968,12 @@ Proof.
   destruct (N.eq_dec x (N.of_nat k)) as [->|Hne]; [right; left; reflexivity | left; apply IH; lia].
 Qed.
 
+Lemma n_range_lt k : forall x, In x (n_range k) -> x < N.of_nat k.
+Proof.
+  induction k as [|k IH]; intros x H; [destruct H|]. cbn [n_range] in H. apply in_app_or in H.
+  destruct H as [H|[<-|[]]]; [specialize (IH x H)|]; lia.
+Qed.
+
 Lemma NoDup_map_inj {A B} (f : A -> B) l :
   NoDup (map f l) -> forall a b, In a l -> In b l -> f a = f b -> a = b.
 Proof.
@@ -968,18 +998,21 @@ Theorem compile_wellformed M o B :
   program_utf8 M o = true ->
   N.of_nat (length (p_bytecode B)) < 2147483648 ->
   N.of_nat (length (p_data B)) < 4294967296 ->
-  N.of_nat (length (p_ids B)) < 4294967296 ->
-  var_handles_collision_free (length (p_ids B)) = true ->
   wellformed_gen false B.
 Proof.
-  intros H Hr Hu Hlen Hdata Hids Hfree.
+  intros H Hr Hu Hlen Hdata.
   destruct (compile_ok_inv _ _ _ H) as (fs & s & Hfs & E & ->).
   unfold program_in_range in Hr. unfold program_utf8 in Hu. rewrite Hfs in Hr, Hu.
   pose proof (compile_ir_instr_ok fs _ s Hr E) as Hok. apply Forall_rev_iff in Hok.
   pose proof (wf_partial_core fs _ s E Hlen) as Hwf.
-  cbn [finish p_ids p_data] in Hids, Hfree, Hdata.
-  pose proof (compile_ir_Inv3 (nvars s) Hids (var_handles_collision_free_spec _ Hfree) fs _ s Hr Hu E) as HI.
-  destruct HI as [H1 H2 H3 H4 H5]. specialize (H5 (N.le_refl _)).
+  cbn [finish p_data] in Hdata.
+  assert (Hn : two32 - 1 < two32) by reflexivity.
+  pose proof (compile_ir_Inv3 (two32 - 1) Hn handle_from_u32_inj fs _ s Hr Hu E) as HI.
+  destruct HI as [H1 H2 H3 H4 H5 H6].
+  assert (Hids : nvars s <= two32 - 1).
+  { cbn [finish p_bytecode] in Hlen. rewrite encode_length, nbytes_rev, <- bytes_nbytes in Hlen.
+    unfold two32. lia. }
+  specialize (H5 Hids).
   destruct H5 as [G1 G2 G3 G4 G5 G6 G7 G8].
   destruct Hwf as (Hb & Hd & (is0 & His0) & Hj & Hlab & Htr & _).
   specialize (Hd Hok).
@@ -1003,6 +1036,41 @@ Proof.
   cbn [finish p_ids p_names]. unfold nvars in *.
   split; [exact G2|]. split; [exact G3|]. split; [exact G4|]. split; [exact G5|].
   split; [exact G6 | exact G7].
+Qed.
+
+(* the two side conditions of an earlier version of the theorem hold for every output *)
+Corollary compile_few_globals M o B :
+  compile M o = COk B -> program_in_range M o = true -> program_utf8 M o = true ->
+  N.of_nat (length (p_bytecode B)) < 2147483648 ->
+  5 * N.of_nat (length (p_ids B)) <= N.of_nat (length (p_bytecode B)).
+Proof.
+  intros H Hr Hu Hlen.
+  destruct (compile_ok_inv _ _ _ H) as (fs & s & Hfs & E & ->).
+  unfold program_in_range in Hr. unfold program_utf8 in Hu. rewrite Hfs in Hr, Hu.
+  assert (Hn : two32 - 1 < two32) by reflexivity.
+  pose proof (compile_ir_Inv3 (two32 - 1) Hn handle_from_u32_inj fs _ s Hr Hu E) as HI.
+  cbn [finish p_bytecode p_ids]. rewrite encode_length, nbytes_rev, <- bytes_nbytes.
+  apply (i3_cnt _ _ HI).
+Qed.
+
+Theorem var_handles_collision_free_all k :
+  N.of_nat k < two32 -> var_handles_collision_free k = true.
+Proof.
+  intros Hk. unfold var_handles_collision_free.
+  assert (G : forall m, (m <= k)%nat -> nodup_N (map handle_from_u32 (n_range m)) = true).
+  { induction m as [|m IH]; intros Hm; [reflexivity|]. cbn [n_range]. rewrite map_app. cbn [map].
+    specialize (IH ltac:(lia)). revert IH. generalize (n_range_lt m). generalize (n_range m).
+    intros l Hl. induction l as [|x r IHl]; intros Hnd; [reflexivity|].
+    cbn [app map] in *. unfold nodup_N in *. apply andb_true_iff in Hnd. destruct Hnd as [Hx Hr].
+    apply andb_true_iff. split.
+    - rewrite existsb_app. cbn [existsb]. rewrite orb_false_r. apply negb_true_iff in Hx.
+      apply negb_true_iff. rewrite Hx. cbn [orb].
+      apply N.eqb_neq. intros Eq. apply handle_from_u32_inj in Eq.
+      + specialize (Hl x (or_introl eq_refl)). lia.
+      + specialize (Hl x (or_introl eq_refl)). unfold two32 in *. lia.
+      + unfold two32 in *. lia.
+    - apply IHl; auto. intros y Hy. apply Hl. right. exact Hy. }
+  apply G. lia.
 Qed.
 
 (* ------------------------------------------------------------------ a concrete instance *)
@@ -1032,8 +1100,7 @@ Proof.
   assert (Hw : wf_check_gen false B = true).
   { vm_compute in E. injection E as <-. vm_compute. reflexivity. }
   repeat (split; [assumption|]).
-  apply (compile_wellformed full_example_module default_options B E Hr Hu); auto.
-  - vm_compute in E. injection E as <-. vm_compute. reflexivity.
+  apply (compile_wellformed full_example_module default_options B E Hr Hu).
   - vm_compute in E. injection E as <-. vm_compute. reflexivity.
   - vm_compute in E. injection E as <-. vm_compute. reflexivity.
 Qed.
